@@ -22,7 +22,8 @@ from tlslite import errors as E
 
 LEVEL = "fault_enumeration"
 
-NEG_KEYS = ("version", "suite", "etm", "ems", "appProto", "serverName")
+NEG_KEYS = ("version", "suite", "etm", "ems", "appProto", "serverName",
+            "ticket", "resumed")
 
 
 def scenarios(tier):
@@ -63,11 +64,28 @@ def scenarios(tier):
         sminv=(3, 1), smaxv=(3, 3))
     add("anon-range", flavour="anon", cred=None, minv=(3, 0), maxv=(3, 3),
         sminv=(3, 0), smaxv=(3, 3))
+    add("tls12-tickets", cred="rsa", tickets=True, **rng)
+    # resumption flows: the attacked handshake is the second one
+    add("tls12-id-resumed", cred="rsa", cache=True, **rng)
+    add("tls12-ticket-resumed", cred="rsa", tickets=True, **rng)
+    add("tls13-psk-resumed", cred="rsa", tickets=True, minv=(3, 3),
+        maxv=(3, 4), sminv=(3, 3), smaxv=(3, 4))
     if tier == "thorough":
         add("tls12-range-dsa", cred="dsa", cset=dict(wide), sset=dict(wide),
             **rng)
-        add("tls12-tickets", cred="rsa", tickets=True, **rng)
     return L
+
+
+def ticket_digest(conn):
+    """What the client holds as resumption tickets after the handshake."""
+    import hashlib
+    s = conn.session
+    if s is None:
+        return None
+    t = [bytes(x.ticket) for x in (s.tls_1_0_tickets or [])]
+    if not t:
+        return None
+    return hashlib.sha256(b"|".join(t)).hexdigest()[:16]
 
 
 def negotiated(v):
@@ -91,20 +109,64 @@ def run_mitm(sc, seed, action):
                 return action[2](rec)
             return [rec]
         return f
+    session = cache = None
+    if sc.name.endswith("-resumed"):
+        # an untouched first connection provides the session to resume
+        cache = W.SessionCache() if sc.cache else None
+        p0, o0 = S.connect(sc, seed=seed, reset=False, cache=cache)
+        if o0["C"].status == "ok" and o0["S"].status == "ok":
+            p0.write("S", b"x")
+            p0.read("C", None, 1)
+            session = p0.c.session
+            p0.close("C")
+            p0.read("S", None, 1)
+        SEAMS.reset(seed + 1, sc.name)
     w.c2s.mitm = mk("c2s")
     w.s2c.mitm = mk("s2c")
-    pair, out = S.connect(sc, world=w, seed=seed, reset=False)
+    pair, out = S.connect(sc, world=w, seed=seed, reset=False,
+                          session=session, cache=cache)
     return pair, out, rec_log, hit["n"]
 
 
-def judge(pair, out, honest_view):
+def issued_ticket(rec_log):
+    """The TLS <= 1.2 NewSessionTicket as the server sent it (from the
+    attacker's tap, before any modification)."""
+    import hashlib
+    for r in rec_log["s2c"]:
+        if r[0] == 22 and len(r) > 9 and r[5] == 4:
+            body = r[5:]
+            ln = int.from_bytes(body[1:4], "big")
+            msg = body[4:4 + ln]
+            if len(msg) >= 6:
+                tl = int.from_bytes(msg[4:6], "big")
+                return hashlib.sha256(bytes(msg[6:6 + tl])).hexdigest()[:16]
+    return None
+
+
+def judge(pair, out, honest_view, rec_log=None):
     fails = []
     c_ok = out["C"].status == "ok"
     s_ok = out["S"].status == "ok"
     sig = (c_ok, s_ok)
     if c_ok and s_ok:
         vc, vs = W.view(pair.c), W.view(pair.s)
-        d = W.views_equal(vc, vs)
+        vc["ticket"] = honest_view.get("ticket")
+        vc["resumed"] = bool(pair.c.resumed)
+        if rec_log is not None and tuple(pair.c.version) < (3, 4):
+            issued = issued_ticket(rec_log)
+            held = ticket_digest(pair.c)
+            if issued is not None and held != issued and \
+                    len(pair.c.session.tls_1_0_tickets or []) == 1:
+                fails.append("both endpoints completed, the client holds "
+                             "ticket %s, the server issued %s" % (held,
+                                                                  issued))
+            if issued is None and held is not None and \
+                    honest_view.get("ticket") is None:
+                fails.append("client holds a ticket the server never "
+                             "issued")
+        d = W.views_equal(vc, vs, keys=tuple(
+            k for k in W.SHARED_VIEW_KEYS if not pair.c.resumed or k not in (
+                "serverChain", "clientChain")))
         if d:
             fails.append("both endpoints completed with different views: "
                          "%r" % ([x[0] for x in d],))
@@ -274,7 +336,12 @@ def case(item):
         rec["fails"].append(("honest", "honest run failed %r" % (out,)))
         return rec
     hv = W.view(pair.c)
+    hv["ticket"] = ticket_digest(pair.c)
+    hv["resumed"] = bool(pair.c.resumed)
     rec["honest"] = negotiated(hv)
+    if sc.name.endswith("-resumed") and not pair.c.resumed:
+        rec["fails"].append(("honest", "harness: second connection of %s "
+                             "was not resumed" % sc.name))
     actions = []
     for direction in ("c2s", "s2c"):
         recs = log[direction]
@@ -341,7 +408,7 @@ def case(item):
         if not hit:
             continue
         rec["n"] += 1
-        sig, fails = judge(pair2, out2, hv)
+        sig, fails = judge(pair2, out2, hv, log2)
         rec["sigs"].add((kind, sig))
         if sig == (True, True):
             rec["both_ok"] += 1
@@ -391,11 +458,15 @@ def sentinel_case(item):
     from ..puppet import Tap
     kind, cmax, v, tail, seed = item
     fails = []
-    if kind == "server":
+    if kind in ("server", "server-resumed"):
         smax = tail
-        sc = S.Scen("c04/sentinel-server", cred="rsa", minv=(3, 0), maxv=v,
-                    sminv=(3, 0), smaxv=smax)
+        sc = S.Scen("c04/sentinel-server" + (
+            "-resumed" if kind == "server-resumed" else ""), cred="rsa",
+            minv=(3, 0), maxv=v, sminv=(3, 0), smaxv=smax, cache=True)
         pair, out, log, _ = run_mitm(sc, seed, None)
+        if kind == "server-resumed" and not (
+                out["C"].status == "ok" and pair.c.resumed):
+            return item[:4], ("not-resumed",), []
         ok = out["C"].status == "ok" and out["S"].status == "ok"
         if not ok:
             return item[:4], ("honest-failed",), ["honest run failed: %r" %
@@ -414,7 +485,7 @@ def sentinel_case(item):
         if want is None and got in (b"DOWNGRD\x01", b"DOWNGRD\x00"):
             fails.append("server set a downgrade sentinel at its own "
                          "highest version")
-        return item[:4], ("server", want is not None), fails
+        return item[:4], (kind, want is not None), fails
     sc = S.Scen("c04/sentinel", cred="rsa", minv=(3, 0), maxv=cmax,
                 sminv=(3, 0), smaxv=v)
     tb = SENTINELS[tail]
@@ -528,6 +599,8 @@ def run(res, tier, seed):
         for v in S.VERSIONS:
             if v <= smax:
                 sitems.append(("server", None, v, smax, seed))
+                if v <= (3, 3):
+                    sitems.append(("server-resumed", None, v, smax, seed))
     ns = 0
     for (k, sig, fails) in pmap(sentinel_case, sitems):
         ns += 1
